@@ -520,7 +520,7 @@ class Bits:
             self._bitstore = BitStore.frombytes(bytearray(s))
         elif isinstance(s, io.BytesIO):
             self._bitstore = BitStore.frombytes(s.getvalue())
-        elif isinstance(s, (io.BufferedReader, io.FileIO)):
+        elif isinstance(s, (io.BufferedReader, io.BufferedRandom, io.FileIO)):
             self._setfile(s.name)
         elif isinstance(s, bitarray.bitarray):
             self._bitstore = BitStore(s)
@@ -558,11 +558,11 @@ class Bits:
                 offset, offset + length)
             return
 
-        if isinstance(s, (io.BufferedReader, io.FileIO)):
+        if isinstance(s, (io.BufferedReader, io.BufferedRandom, io.FileIO)):
             self._setfile(s.name, length, offset)
             return
 
-        if isinstance(s, (str, Bits, bytes, bytearray, memoryview, io.BytesIO, io.BufferedReader, io.FileIO,
+        if isinstance(s, (str, Bits, bytes, bytearray, memoryview, io.BytesIO, io.BufferedReader, io.BufferedRandom, io.FileIO,
                           bitarray.bitarray, array.array, abc.Iterable)):
             raise bitstring.CreationError(f"Cannot initialise bitstring from type '{type(s)}' when using explicit lengths or offsets.")
         raise TypeError(f"Cannot initialise bitstring from type '{type(s)}'.")
